@@ -100,7 +100,7 @@ def generate(seed, idx, tier):
   else:
     so = 'sketchy' if family == 'tf_sketchy' else (
         'shampoo' if family == 'tf_shampoo' else pick(rng, ['shampoo', 'sketchy']))
-    cfg = tf_gen.gen_config(rng, so=so)
+    cfg = tf_gen.gen_config(rng, so=so, variants=True)
     tree = tf_gen.gen_tree(rng, cfg)
     plan = {'system': 'tearfree', 'config': cfg, 'tree': tree,
             'x64': so == 'shampoo' and rng.random() < 0.5,
